@@ -1,7 +1,7 @@
 (* Xform/WalkT.v — executable model of traversal.WalkTransforming (traversal/walk.go:
    walkTransforming, walk_transform_iterateList, walk_transform_iterateMap) for a small selector
    fragment modelled here (matcher, explore-all, explore-fields, explore-index, explore-union,
-   explore-recursive with edge; no conditions, no slices, no interpret-as, no stop-at).
+   explore-range, explore-recursive with edge; no conditions, no slices, no interpret-as, no stop-at).
    MODEL file: definitions only.  The complete selector model lives in coq/Trav (another cluster);
    this file deliberately does not depend on it.
 
@@ -32,6 +32,7 @@ Inductive sel :=
 | SAll (next : sel)
 | SFields (fs : list (bytes * sel))
 | SIndex (i : Z) (next : sel)
+| SRange (start stop : Z) (next : sel)    (* ExploreRange{next, start, end}: list positions start <= i < end *)
 | SUnion (ms : list sel)
 | SRec (seq cur : sel) (lim : option Z)   (* ExploreRecursive{sequence, current, limit}; None = no limit *)
 | SEdge.
@@ -40,7 +41,9 @@ Inductive sel :=
    PathSegmentOfString for map keys *)
 Inductive pseg := PI (i : Z) | PK (k : bytes).
 
-Definition pseg_string (p : pseg) : bytes := match p with PI i => dec_of_Z i | PK k => k end.
+(* PathSegment.String(); a negative int-stored segment reads as the string-stored "" *)
+Definition pseg_string (p : pseg) : bytes :=
+  match p with PI i => if i <? 0 then [] else dec_of_Z i | PK k => k end.
 
 Definition pseg_eqb (a b : pseg) : bool :=
   match a, b with
@@ -64,6 +67,7 @@ Fixpoint interests (sq : squirks) (s : sel) : option (list pseg) :=
   | SAll _ => None
   | SFields fs => Some (map (fun kv => PK (fst kv)) fs)
   | SIndex i _ => Some [PI i]
+  | SRange a b _ => Some (map (fun k => PI (a + Z.of_nat k)) (seq 0 (Z.to_nat (b - a))))
   | SUnion ms =>
       match (fix go (ms : list sel) : option (list pseg) :=
                match ms with
@@ -126,6 +130,13 @@ Fixpoint explore (sq : squirks) (s : sel) (isl : bool) (p : pseg) : res xerr (op
         | None => Ok None
         end
       else Ok None
+  | SRange a b next =>
+      if isl then
+        match (match p with PI j => Some j | PK k => parse_int k end) with
+        | Some j => if (a <=? j) && (j <? b) then Ok (Some next) else Ok None
+        | None => Ok None
+        end
+      else Ok None
   | SUnion ms =>
       do l <- (fix go (ms : list sel) : res xerr (list sel) :=
                  match ms with
@@ -181,11 +192,13 @@ Section WT.
     end.
 
   Section Loops.
-    Variable rec : sel -> dm -> list dm -> res xerr (dm * list dm).
+    (* the callback log: Progress.Path (rendered segments) and the node it was called with *)
+    Variable rec : sel -> path -> dm -> list (path * dm) -> res xerr (dm * list (path * dm)).
+    Variable here : path.
     Variable s : sel.
     Variable attn : option (list pseg).
 
-    Fixpoint wt_list (i : Z) (l : list dm) (log : list dm) : res xerr (list dm * list dm) :=
+    Fixpoint wt_list (i : Z) (l : list dm) (log : list (path * dm)) : res xerr (list dm * list (path * dm)) :=
       match l with
       | [] => Ok ([], log)
       | v :: r =>
@@ -194,7 +207,7 @@ Section WT.
             match sn with
             | Some sn =>
                 do v' <- load_child v;
-                do x <- rec sn v' log;
+                do x <- rec sn (here ++ [pseg_string (PI i)]) v' log;
                 do y <- wt_list (i + 1) r (snd x);
                 Ok (fst x :: fst y, snd y)
             | None => do y <- wt_list (i + 1) r log; Ok (v :: fst y, snd y)
@@ -202,7 +215,7 @@ Section WT.
           else do y <- wt_list (i + 1) r log; Ok (v :: fst y, snd y)
       end.
 
-    Fixpoint wt_map (m : list (bytes * dm)) (log : list dm) : res xerr (list (bytes * dm) * list dm) :=
+    Fixpoint wt_map (m : list (bytes * dm)) (log : list (path * dm)) : res xerr (list (bytes * dm) * list (path * dm)) :=
       match m with
       | [] => Ok ([], log)
       | (k, v) :: r =>
@@ -211,7 +224,7 @@ Section WT.
             match sn with
             | Some sn =>
                 do v' <- load_child v;
-                do x <- rec sn v' log;
+                do x <- rec sn (here ++ [k]) v' log;
                 do y <- wt_map r (snd x);
                 Ok ((k, fst x) :: fst y, snd y)
             | None => do y <- wt_map r log; Ok ((k, v) :: fst y, snd y)
@@ -220,18 +233,19 @@ Section WT.
       end.
   End Loops.
 
-  Fixpoint wt (fuel : nat) (s : sel) (n : dm) (log : list dm) {struct fuel} : res xerr (dm * list dm) :=
+  Fixpoint wt (fuel : nat) (s : sel) (here : path) (n : dm) (log : list (path * dm)) {struct fuel}
+    : res xerr (dm * list (path * dm)) :=
     match fuel with
     | O => Err EFuel
     | S fu =>
         let d := decide s in
-        let log1 := if d then log ++ [n] else log in
+        let log1 := if d then log ++ [(here, n)] else log in
         match (if d then g n else None) with
         | Some v => Ok (v, log1)
         | None =>
             match n with
-            | DList l => do x <- wt_list (wt fu) s (interests sq s) 0 l log1; Ok (DList (fst x), snd x)
-            | DMap m => do x <- wt_map (wt fu) s (interests sq s) m log1; Ok (DMap (fst x), snd x)
+            | DList l => do x <- wt_list (wt fu) here s (interests sq s) 0 l log1; Ok (DList (fst x), snd x)
+            | DMap m => do x <- wt_map (wt fu) here s (interests sq s) m log1; Ok (DMap (fst x), snd x)
             | _ => Ok (n, log1)
             end
         end
